@@ -116,6 +116,14 @@ class RecDict(dict):
             else: self.stored[key] = c
         except TypeError: pass
         dict.__setitem__(self, key, value)
+    def setdefault(self, key, default=None):
+        # a lookup and, on a miss, a store; with the caches forced to miss the caller's fresh value always wins
+        if MODE['cold'] or not dict.__contains__(self, key):
+            self.log.append(('get', key, False))
+            self[key] = default
+            return default
+        self.log.append(('get', key, True))
+        return dict.__getitem__(self, key)
     def pop(self, key, *default):
         self.log.append(('pop', key, dict.__contains__(self, key)))
         return dict.pop(self, key, *default)
